@@ -89,7 +89,7 @@ def a4_g5(ctx, rep):
     init = {idx: aff_sym("I"), prv: aff_sym("Pv"), "#ghost": aff_sym("Pv")}
     back, out_env, inn = A.run_loop(head, init, (idx, prv))
     rep.floor("A4", "back-edges", len(back), 2)
-    rep.floor("A4", "chunk-pushes-in-loop", len(pushes), 7)
+    rep.floor("A4", "chunk-pushes-in-loop", len(pushes), 4)
     n_accept = n_fall = 0
     for pb, env in sorted(back.items()):
         g, pv, ix = env.get("#ghost", TOP), env.get(prv, TOP), env.get(idx, TOP)
